@@ -167,6 +167,10 @@ func normalize(v reflect.Value) {
 
 var dirtyDest = map[reflect.Type][]byte{}
 
+type retainedEncoding struct{ returned, snapshot []byte }
+
+var lastEncoding = map[string]retainedEncoding{}
+
 func rtCase(c *EnumCtx, cd codec.Codec, class string, val interface{}) {
 	if !c.Mine() {
 		return
@@ -185,6 +189,14 @@ func rtCase(c *EnumCtx, cd codec.Codec, class string, val interface{}) {
 		c.Fail(fmt.Sprintf("%s: marshal fails (%s)", cd.Name(), class), name, err.Error())
 		return
 	}
+	// an encoding handed out earlier must not change when another value is marshalled (the encoder may not
+	// keep using the buffer it returned)
+	if prev, ok := lastEncoding[cd.Name()]; ok && !bytes.Equal(prev.returned, prev.snapshot) {
+		c.Fail(fmt.Sprintf("%s: an encoding returned by Marshal changed when a later value was marshalled", cd.Name()), name, fmt.Sprintf("earlier encoding %q now reads %q", trimB(prev.snapshot), trimB(prev.returned)))
+		delete(lastEncoding, cd.Name())
+		return
+	}
+	lastEncoding[cd.Name()] = retainedEncoding{returned: enc, snapshot: append([]byte{}, enc...)}
 	enc = append([]byte{}, enc...)
 	dst := reflect.New(rv.Elem().Type())
 	if err := cd.Unmarshal(enc, dst.Interface()); err != nil {
